@@ -289,6 +289,14 @@ def check_case(case):
     check_dict(out, 'stored lattice, require_lattice', enc, require_lattice=True)
     check_dict(out, 'stored lattice, ignore_lattice', enc, ignore_lattice=True)
     check_dict(out, 'stored lattice, raw', enc, raw=True)
+    # every corruption of the dict is rejected under EVERY combination of the flags (the flags select what is done with a
+    # well-formed dict, they do not relax validation): notably an empty stored lattice
+    for empty in ([], ()):
+        for ign in (False, True):
+            for req in (False, True):
+                for raw_ in (False, True):
+                    check_dict(out, 'empty stored lattice; ignore_lattice=%s require_lattice=%s raw=%s' % (ign, req, raw_),
+                               dict(d0, lattice=empty), ignore_lattice=ign, require_lattice=req, raw=raw_)
     singles = dict_corruptions(d0)
     for k, (desc, d) in enumerate(singles):
         check_dict(out, desc, d, as_tuples=bool(k % 2))
